@@ -69,6 +69,22 @@ theorem step_enqueued (s s' : Sys) (op : SOp) (h : stepS s op = .ok s') :
           · cases hr
           · cases hr; rfl
       · cases h; rfl
+  | sync =>
+    left
+    simp only [stepS] at h
+    split at h
+    · cases h; rfl
+    · cases h; rfl
+  | resync k =>
+    left
+    simp only [stepS] at h
+    split at h
+    · cases h; rfl
+    · split at h
+      · cases hg : stepT s.rcv (.resync _) with
+        | error t => rw [hg] at h; cases h
+        | ok g => rw [hg, bindR_ok] at h; cases h; rfl
+      · cases h; rfl
 
 /-- Every submitted packet of a run comes from an `enq` step of the schedule (or was there before). -/
 theorem run_enqueued (ops : List SOp) : ∀ (s s' : Sys), runS s ops = .ok s' →
